@@ -197,6 +197,23 @@ def run(ctx):
                 ctx.violation("the array returned by an earlier call of %s changed when a later prediction was computed" % name,
                               {"kind": "helper", "helper": name, "seed": ctx.seed})
                 break
+    # a prediction for an experiment depends only on that experiment's own sample (and treatments): an interaction sample whose
+    # single-agent table knows only SOME samples (the others' plates are still hidden) predicts those samples exactly as with the full table
+    for D in (1, 2):
+        th = theta("inter", D, rng)
+        for keep in ({1}, {0}):
+            part = SparseDrugComboInteractionMCMCSample(W=th.W.copy(), V2=th.V2.copy(), precision=th.precision,
+                                                        single_effect_lookup={k_: v_ for k_, v_ in th.single_effect_lookup.items() if k_[0] in keep})
+            s_ = sorted(keep)[0]
+            rows_ = [(s_, 0, 1), (s_, 2, -1), (s_, -1, 1), (s_, 1, 2)]
+            scr_ = screen_of(rows_, 2)
+            for fname in ("predict_viability", "predict_conditional_mean"):
+                st_f, full = outcome(getattr(th, fname), scr_)
+                st_p, got = outcome(getattr(part, fname), scr_)
+                ctx.evaluations += 1
+                if st_f != st_p or (st_f == "ok" and np.ascontiguousarray(full).tobytes() != np.ascontiguousarray(got).tobytes()):
+                    ctx.violation("interaction sample whose single-agent table holds only sample %d: %s for that sample's experiments is %s, with the full table %s" % (
+                        s_, fname, got, full), {"kind": "partial-table", "sample": s_, "D": D, "seed": ctx.seed})
     bad = validate(ctx, "TraceFunctional", traces, decide=None, next_="TNext", init="TInit",
                    constants={"Keys": {0}, "Outs": {0}, "Globs": {0}, "CheckGlobal": False})
     for i, clause in bad[:3]:
